@@ -180,10 +180,12 @@ def reopen_store(kind, old):
 
 
 def chain(store, idle_timeout=1000.0):
-    rt = ServerRuntimeDecorator(
-        IdleReleaseDecorator(PersistenceDecorator(BasicRuntime(), store=store), store=store, idle_timeout=idle_timeout),
-        store=store, persistence_backoff=list(BACKOFF))
-    return rt, _WorkflowService(rt, store)
+    pers = PersistenceDecorator(BasicRuntime(), store=store)
+    rt = ServerRuntimeDecorator(IdleReleaseDecorator(pers, store=store, idle_timeout=idle_timeout),
+                                store=store, persistence_backoff=list(BACKOFF))
+    svc = _WorkflowService(rt, store)
+    svc._persistence = pers      # harness handle on the PersistenceDecorator of this chain
+    return rt, svc
 
 
 # ------------------------------------------------------------------------------------------------
@@ -417,7 +419,7 @@ async def _externals(svc, rt, store, spec, run_id, pending, box, horizon, log_le
     for _ in range(horizon):
         await asyncio.sleep(1)
         h = await _get(store)
-        if box or h is None or h.status != "running":
+        if box or h is None or h.status != "running" or getattr(store, "frozen", False):
             return
         n = log_len()
         quiet = quiet + 1 if n == last else 0
@@ -579,3 +581,162 @@ def describe(spec):
     return json.loads(json.dumps(dict(kind=spec["kind"], steps=spec["steps"], pols=spec["pols"],
                                       handlers=spec["handlers"], timeout=spec["timeout"],
                                       externals=spec["externals"]), default=str))
+
+
+# ------------------------------------------------------------------------------------------------
+# C13: crash after the k-th persisted tick, restart on the same store
+# ------------------------------------------------------------------------------------------------
+from workflows.runtime.types.commands import CommandQueueEvent, CommandScheduleIdleCheck  # noqa: E402
+from workflows.runtime.types.ticks import TickAddEvent, TickCancelRun, TickIdleCheck  # noqa: E402
+
+
+def ev_ident(e):
+    return (type(e).__name__, e.get("i", None) if not isinstance(e, StepFailedEvent) else ("sf", e.step_name, e.attempts))
+
+
+def pending_outputs(wf, prefix, body_log):
+    """What only existed in memory when the process stopped after `prefix`: (returned-event ticks still in
+    tick_buffer / scheduled_wakeups, events sent with ctx.send_event by steps whose completion is persisted)."""
+    state = BrokerState.from_workflow(wf)
+    state, _ = CL.rewind_in_progress(state, float(NOW_REPLAY))
+    buf, wake = [], []
+    done_steps = set()
+    seen_adds = []
+    for t in prefix:
+        if buf:
+            buf.pop(0)
+        if isinstance(t, TickAddEvent):
+            seen_adds.append((ev_ident(t.event), t.attempts or 0))
+            if ((ev_ident(t.event), t.attempts or 0)) in wake:
+                wake.remove((ev_ident(t.event), t.attempts or 0))
+        if isinstance(t, TickStepResult):
+            done_steps.add((t.step_name, t.event.get("i", None) if not isinstance(t.event, StepFailedEvent) else None))
+        state, cmds = _orig_reduce(t, state, float(NOW_REPLAY))
+        for c in cmds:
+            if isinstance(c, CommandQueueEvent):
+                ident = (ev_ident(c.event), c.attempts or 0)
+                if c.delay is not None and c.delay > 0:
+                    wake.append(ident)
+                else:
+                    buf.append(("add", ident))
+            elif isinstance(c, CommandScheduleIdleCheck) and ("idle",) not in buf:
+                buf.append(("idle",))
+    returned = [b[1] for b in buf if b[0] == "add"] + list(wake)
+    added = [a[0] for a in seen_adds]
+    sent = [(x[2], x[3]) for x in body_log if x[0] == "send" and (x[1], x[3] // 10) in done_steps
+            and (x[2], x[3]) not in added]
+    return returned, sent
+
+
+def accepted_externals(spec, prefix):
+    left = []
+    for act in spec.get("externals", []):
+        if act[0] == "hr":
+            ok = any(isinstance(t, TickAddEvent) and isinstance(t.event, HR) and t.event.get("k", None) == act[1]
+                     for t in prefix)
+        elif act[0] == "cancel":
+            ok = any(isinstance(t, TickCancelRun) for t in prefix)
+        else:
+            ok = False
+        if not ok:
+            left.append(act)
+    return left
+
+
+def e_replayed(rc):
+    if rc is None:
+        return [0]
+    if rc.exit_command is None:
+        return [2]
+    return [3] + R.e_cmd(rc.exit_command)
+
+
+def crash_case(spec, kind, scratch, name, k):
+    """Phase 1: run until the k-th tick is persisted, then the process is dead (the store drops every later write
+    and the chain is stopped).  Phase 2: a new chain on the same persisted data; _on_server_start; the environment
+    repeats the external inputs that were not accepted before the crash."""
+    obs = Obs()
+    log1, log2 = [], []
+
+    async def main():
+        store = make_store(kind, scratch, name, None, limit=k)
+        rt, svc = chain(store)
+        wf = build_workflow(spec, log1)
+        obs.cfg = cfg_of(wf, spec)
+        wf._switch_workflow_name("w")
+        wf._switch_runtime(rt)
+        await svc.start()
+        box = []
+        hd = await svc.start_workflow(wf, "h1", start_event=StartEvent(i=1))
+        run = svc._workflow_run_handler("w", hd.run_id)
+        waiter = asyncio.ensure_future(_await(run, box))
+        n0 = [0]
+
+        async def progress():
+            return None
+        await _externals(svc, rt, store, spec, hd.run_id, list(spec.get("externals", [])), box,
+                         spec.get("horizon", 70), lambda: store.nticks)
+        obs.crashed = store.frozen
+        await svc.stop()
+        await asyncio.sleep(0)
+        if not waiter.done():
+            waiter.cancel()
+        await asyncio.gather(waiter, return_exceptions=True)
+        # ---- the new process
+        store2 = reopen_store(kind, store)
+        obs.prefix = await persisted_ticks(store2, hd.run_id)
+        obs.record_at_crash = await _get(store2)
+        rt2, svc2 = chain(store2)
+        wf2 = build_workflow(spec, log2)
+        wf2._switch_workflow_name("w")
+        wf2._switch_runtime(rt2)
+        # what context_from_ticks rebuilds (compared with the model), computed on a workflow of its own
+        wf3 = build_workflow(spec, [])
+        wf3._switch_workflow_name("w3")
+        rc, enc = None, None
+        try:
+            rc = await svc2._persistence.context_from_ticks(wf3, hd.run_id)
+            enc = e_replayed(rc)
+        except ValueError:
+            enc = [1, 2]       # what the reducer model calls Err 2 (worker not found)
+        except KeyError:
+            enc = [1, 4]
+        except RuntimeError as ex:
+            if str(ex) != "policy bug":
+                raise
+            enc = [1, 3]
+        if rc is None:
+            enc += [0]
+        else:
+            pre = rc.context._face
+            st = BrokerState.from_serialized(pre.init_snapshot, wf3, pre._serializer)
+            enc += [1] + R.e_state(st) + R.e_rehydrate(st.rehydrate_with_ticks())
+            _, _, exp = R.reduce_expect(lambda: CL.rewind_in_progress(st, float(NOW_REPLAY)))
+            enc += exp
+        obs.resume_enc = enc
+        obs.exit_command = rc.exit_command if rc is not None else None
+        await svc2.start()
+        box2 = []
+        await asyncio.sleep(1)
+        await _externals(svc2, rt2, store2, spec, hd.run_id, accepted_externals(spec, obs.prefix), box2,
+                         spec.get("horizon", 70), lambda: store2.nticks + len(log2))
+        await asyncio.sleep(12)
+        obs.record = await _get(store2)
+        obs.ticks_after = await persisted_ticks(store2, hd.run_id)
+        await svc2.stop()
+        obs.wf = wf3
+
+    vloop.run(main())
+    obs.log1, obs.log2 = log1, log2
+    return obs
+
+
+def coq_resume_case(obs):
+    return "resume_case %s %s %s %s %s" % (
+        R.g_policy(obs.cfg["pols"]), R.g_state(obs.cfg), glist("(%s)" % R.g_tick(t) for t in obs.prefix),
+        gz(NOW_REPLAY), glist(gz(z) for z in obs.resume_enc))
+
+
+def coq_resume_detail(obs):
+    return "enc_resume %s %s %s %s" % (
+        R.g_policy(obs.cfg["pols"]), R.g_state(obs.cfg), glist("(%s)" % R.g_tick(t) for t in obs.prefix), gz(NOW_REPLAY))
